@@ -363,6 +363,8 @@ def run_history(ctx, res, plates, k, strat, rng, lines, expect, meta, max_len=40
         rounds = len(forced_rounds)
     for rnd in range(rounds):
         desc = describe(screen)   # observed flags change between rounds
+        if rnd == 0:
+            desc0 = desc
         n_samples = len(set(s for d in desc for s in d[1]))
         forced = forced_rounds[rnd] if forced_rounds is not None else None
         batch = []
@@ -379,6 +381,11 @@ def run_history(ctx, res, plates, k, strat, rng, lines, expect, meta, max_len=40
                 lines.append("select %d %s %s" % (k, plates_tok(desc), ids_tok(batch)))
                 expect.append("err:%s" % err if err else ids_tok(el))
                 meta.append(c)
+                if rnd > 0:
+                    # the model's OWN account of the rounds: the screen as it was at the start + the finished batches (markObserved)
+                    lines.append("rounds %d %s %s %s" % (k, plates_tok(desc0), "/".join(ids_tok(b) for b in done), ids_tok(batch)))
+                    expect.append("err:%s" % err if err else ids_tok(el))
+                    meta.append(dict(c, kind="rounds"))
             if batch and n_samples >= 2 and k >= 2:
                 res.nontrivial.add(("state", k, tuple(sorted(batch)), plates_tok(desc)))
             if not ok or err:
